@@ -180,11 +180,14 @@ def _shiftform(e, var, K):
     return None
 
 
-def _same_floor(df, cf, lo, hi, K):
-    from .C08 import tdiv
+def _same_floor(df, cf, lo, hi, K, P=None):
+    from .C08 import tdiv, members
     pts = set()
-    for base in (lo, hi - 2 * K, (lo + hi) // 2):
-        pts |= set(range(max(lo, base), min(hi, base + 2 * K) + 1))
+    if P is not None:
+        pts = members(P, True, lo, hi, abs(K))
+    else:
+        for base in (lo, hi - 2 * K, (lo + hi) // 2):
+            pts |= set(range(max(lo, base), min(hi, base + 2 * K) + 1))
     f = lambda a: (a + df[2]) // K
     g = lambda a: cf[0] * tdiv(cf[1] * a + cf[2], K)
     bad = next((a for a in sorted(pts) if f(a) != g(a)), None)
@@ -268,7 +271,7 @@ def run(tier, seed, work):
                     verdict = "undecided" if verdict == "proved" else verdict
                     details.append("source in %s: leaf %s not recognised" % (P.describe(True), gate.show(leaf)[:100]))
                     continue
-                ok, wit = C08.same_on(df, cf[rn], lo, hi, K) if df[0] != "floor" else _same_floor(df, cf[rn], lo, hi, K)
+                ok, wit = C08.same_on(df, cf[rn], lo, hi, K, P, True) if df[0] != "floor" else _same_floor(df, cf[rn], lo, hi, K, P)
                 if not ok:
                     verdict = "refuted"
                     details.append("source in %s: the constructor computes %s; %s rounding of a/%d demands %s — they differ e.g. at a = %s" % (P.describe(True), gate.show(leaf)[:80], mode, K, cf[rn], wit))
